@@ -8,6 +8,7 @@ import (
 	"reflect"
 	"runtime"
 	"sort"
+	"strings"
 	"sync"
 	"time"
 
@@ -234,7 +235,24 @@ func (w *world) connect(who Ident, bid string) (*websocket.Conn, error) {
 	if who.Addr != nil {
 		hdr["X-Forwarded-For"] = []string{string(who.Addr)}
 	}
-	c, _, err := lib.Dial(uri, hdr)
+	// request headers and dial options that must not change what is reported
+	switch who.Hdr {
+	case 1:
+		hdr["X-Real-Ip"] = []string{"10.9.8.7"}
+		hdr["Forwarded"] = []string{"for=192.0.2.60;proto=http;by=203.0.113.43"}
+	case 2: // the same ids on every connection
+		hdr["X-Request-Id"] = []string{"c14-same-id"}
+		hdr["X-Correlation-Id"] = []string{"c14-same-id"}
+		hdr["Traceparent"] = []string{"00-4bf92f3577b34da6a3ce929d0e0e4736-00f067aa0ba902b7-01"}
+	case 3:
+		hdr["X-Request-Start"] = []string{[]string{"t=1", "t=99999999999999", "yesterday", ""}[len(who.UserAgent)%4]}
+	case 4: // a repeated header: the first value is the one Header.Get returns
+		if who.Addr != nil {
+			hdr["X-Forwarded-For"] = []string{string(who.Addr), "198.51.100.77"}
+		}
+	}
+	d := websocket.Dialer{HandshakeTimeout: 3 * time.Second, EnableCompression: who.Hdr == 5}
+	c, _, err := d.Dial(uri, hdr)
 	return c, err
 }
 
@@ -276,7 +294,7 @@ func sanitizedIdent(who Ident) Ident {
 	return o
 }
 
-func keyOf(i Ident) string { i.Exp = 0; b, _ := json.Marshal(i); return string(b) }
+func keyOf(i Ident) string { i.Exp, i.Hdr = 0, 0; b, _ := json.Marshal(i); return string(b) }
 
 // show is the readable form used in violation details.
 func show(i Ident) string {
@@ -466,7 +484,7 @@ func (w *world) trafficFigures(f frame, live []*liveClient) (string, string) {
 	return "", ""
 }
 
-var oddScopes = []string{"stats", "wr\"ite", "re\\ad", "<&>", " ", "é\U0001F600", "", "Read", "WRITE", " read", "relay:stats", "a\tb", "\u0001"}
+var oddScopes = []string{"\uff57\uff52\uff49\uff54\uff45", "  read  ", "stats", "wr\"ite", "re\\ad", "<&>", " ", "é\U0001F600", "", "Read", "WRITE", " read", "relay:stats", "a\tb", "\u0001"}
 
 func genWho(r *lib.Rng, prefix string, id uint64, now int64) (Ident, bool) {
 	topic := prefix + r.Pick([]string{"a", "A", "a_b", "a-b", "0", "Z_-9", "topic"})
@@ -478,7 +496,7 @@ func genWho(r *lib.Rng, prefix string, id uint64, now int64) (Ident, bool) {
 		sc = append(sc, "write")
 	case 2:
 		// look-alike scopes only: the websocket is refused after the upgrade and must not be listed
-		sc = append(sc, r.Pick([]string{"Read", "WRITE", " read", "write ", "readwrite"}))
+		sc = append(sc, r.Pick([]string{"Read", "WRITE", " read", "write ", "readwrite", "\uff52\uff45\uff41\uff44", "read\u00a0", "write\t", "\u0280ead", "wr\u0131te", "read,write"}))
 	default:
 		sc = append(sc, "read", "write")
 	}
@@ -497,9 +515,13 @@ func genWho(r *lib.Rng, prefix string, id uint64, now int64) (Ident, bool) {
 	var addr []byte
 	if r.Chance(3, 4) {
 		addr = headerSafe(oddString(r))
+		if r.Chance(1, 3) { // the shapes a proxy chain gives the header
+			addr = []byte(r.Pick([]string{"203.0.113.9", "203.0.113.9, 10.0.0.1, 10.0.0.2", "203.0.113.9:51234", "[2001:db8::7]:443", "[2001:db8::7", "2001:db8::7",
+				"unknown", ",", "203.0.113.9,", strings.Repeat("10.1.2.3, ", 400) + "10.9.9.9"}))
+		}
 	}
 	exp := expiryValue(r, now)
-	who := Ident{Topic: []byte(topic), Scopes: scb, CanRead: cr, CanWrite: cw, ExpiresAt: expText(exp), Exp: exp, UserAgent: ua, Addr: addr}
+	who := Ident{Topic: []byte(topic), Scopes: scb, CanRead: cr, CanWrite: cw, ExpiresAt: expText(exp), Exp: exp, UserAgent: ua, Addr: addr, Hdr: r.Intn(9)}
 	if who.Addr == nil {
 		who.Addr = []byte{}
 	}
@@ -568,7 +590,11 @@ func genScript(r *lib.Rng, prefix string) []Ev {
 				next++
 			case x < 7:
 				i := r.Intn(len(ids))
-				script = append(script, Ev{K: "leave", ID: ids[i]})
+				k := "leave"
+				if r.Chance(1, 3) {
+					k = "abort" // the peer fails in the middle of a frame instead of closing
+				}
+				script = append(script, Ev{K: k, ID: ids[i]})
 				ids = append(ids[:i], ids[i+1:]...)
 			default:
 				script = append(script, Ev{K: "traffic", ID: ids[r.Intn(len(ids))], Count: r.Range(1, 5), Size: r.Range(1, 3000)})
@@ -600,9 +626,16 @@ func (w *world) runScript(prefix string, script []Ev, bid string) {
 			} else {
 				w.count("hist:refused-join")
 			}
-		case "leave":
+		case "leave", "abort":
 			for i, l := range live {
 				if l.id == e.ID {
+					if e.K == "abort" {
+						// announce a 4096-byte binary frame, send ten bytes of it, drop the TCP connection
+						if u := l.conn.UnderlyingConn(); u != nil {
+							u.Write([]byte{0x82, 0xfe, 0x10, 0x00, 1, 2, 3, 4, 9, 9, 9, 9, 9, 9, 9, 9, 9, 9})
+						}
+						w.count("hist:abort-mid-frame")
+					}
 					l.conn.Close()
 					live = append(live[:i], live[i+1:]...)
 					done = append(done, e)
@@ -619,6 +652,9 @@ func (w *world) runScript(prefix string, script []Ev, bid string) {
 						if err := l.conn.WriteMessage(websocket.BinaryMessage, msg); err == nil {
 							l.sent++
 							l.size = e.Size
+						}
+						if i == 0 { // a client-initiated ping in the middle of traffic is not traffic
+							l.conn.WriteControl(websocket.PingMessage, []byte("c14"), time.Now().Add(time.Second))
 						}
 						time.Sleep(3 * time.Millisecond)
 					}
